@@ -445,6 +445,13 @@ def check(ctx):
         ctx.instance('C02.R5', Model.qual(f), '`name in data`' if not bad else 'VIOLATION', node=f, file=f._mod.rel)
         for node, why in bad:
             ctx.violation('C02.R5', f._mod.rel, node, Model.qual(f), why + ': a present NULL member is dropped from the document', stmt='presence by value')
+    # ... and on the decoding side of JER, where the document is a dictionary too: `"m": null` is a present NULL, not an omitted member
+    jm = model.cls(JER, 'MembersType')
+    jd = jm.find_method('decode')[1]
+    bad = siblings.presence_violations_in(jd, jm, flow.param_names(jd)[1])
+    ctx.instance('C02.R5', '%s (and the helpers it hands the document to)' % Model.qual(jd), '`name in data`' if not bad else 'VIOLATION', node=jd, file=JER)
+    for node, why in bad:
+        ctx.violation('C02.R5', JER, node, Model.qual(jd), why + ': JSON null is the encoding of NULL, so a present `m NULL OPTIONAL` is decoded as absent', stmt='presence by value (decode)')
 
     # ---- R7: delegation mirror (sa/deleg.py)
     ctx.rule('C02.R7', 'per configuration, decode / decode_of hand the element to the mirrored methods of the children that encode / encode_of handed the value to')
@@ -609,3 +616,10 @@ class CompiledType(compiler.CompiledType):""", new="""    def decode(self, eleme
 
 
 class CompiledType(compiler.CompiledType):"""))
+
+MUTANTS.append(dict(name='JER decode treats an explicit null of an OPTIONAL member as omitted', file=JER,
+                    old="""            if name in data:
+                try:
+                    value = member.decode(data[name])""", new="""            if name in data and not (member.optional and data[name] is None):
+                try:
+                    value = member.decode(data[name])""", expect='C02.R5'))
